@@ -120,6 +120,7 @@ impl Codec {
             head: head.method == Method::HEAD,
             version: head.version,
             conn_type,
+            stream: self.flags.contains(Flags::STREAM),
         }
     }
 
@@ -129,11 +130,13 @@ impl Codec {
             head: self.flags.contains(Flags::HEAD),
             version: self.version,
             conn_type: self.conn_type,
+            stream: self.flags.contains(Flags::STREAM),
         }
     }
 
     pub(super) fn set_request_context(&mut self, ctx: RequestContext) {
         self.flags.set(Flags::HEAD, ctx.head);
+        self.flags.set(Flags::STREAM, ctx.stream);
         self.version = ctx.version;
         self.conn_type = ctx.conn_type;
     }
@@ -146,6 +149,8 @@ pub(super) struct RequestContext {
     head: bool,
     version: Version,
     conn_type: ConnectionType,
+    /// the request is a CONNECT / upgrade request (its response body is never chunk-framed)
+    stream: bool,
 }
 
 impl Decoder for Codec {
